@@ -406,11 +406,20 @@ structure View where
   shards : List ShardV         -- one per accepted shard pin, in order
   cdagLinks : Option (List Nat)
   sentAll : List Nat           -- destinations that were handed a block of the stream (sorted)
+  delivered : Bool             -- every block of the stream was accepted by at least one destination
   closure : Bool
   readback : Bool
   rootPlain : Bool
   rootImporter : Bool
   deriving DecidableEq, Repr
+
+/-- some destination accepted (stored) this block -/
+def acceptedBy (log : List Ev) (id : Nat) : Bool :=
+  log.any (fun e => match e with
+    | .put b atts => b == id && atts.any (fun a => a.out == .ok)
+    | _ => false)
+
+def allDelivered (log : List Ev) (stream : List Blk) : Bool := stream.all (fun b => acceptedBy log b.id)
 
 def insertNat (a : Nat) : List Nat → List Nat
   | [] => [a]
@@ -483,6 +492,7 @@ def Out.view (o : Out) (stream : List Blk) (closure readback rootPlain rootImpor
     shards := o.shards.map shardView,
     cdagLinks := o.cdag.map (fun _ => o.shards.map (·.pin.cid)),
     sentAll := o.sentAll,
+    delivered := allDelivered o.log stream,
     closure := closure, readback := readback, rootPlain := rootPlain, rootImporter := rootImporter }
 
 /-- inputs the model is meant for: allocation lists without repetitions, block ids below the node numbers,
